@@ -13,7 +13,8 @@ ID = 'C19'
 LEVEL = 'exploration'
 RULE = ('case = (corpus of 2..10 (value recipe, settings) pairs drawn from all generators - built-ins, mixed-type dict keys '
         'with sort_dict_keys=True, commented values, subclass instances, pretty_call objects, stdlib instances incl. the '
-        'lazily registered ones and struct sequences, cyclic graphs - plus a history: a sequence of corpus indices with '
+        'lazily registered ones and struct sequences, cyclic graphs, instances printed through a value-dependent predicate, '
+        'comments with whitespace-only lines next to comments long enough to wrap - plus a history: a sequence of corpus indices with '
         'repetitions, some of them on a freshly rebuilt equal value instead of the long-lived object, with allocator perturbations (allocate/free junk) between calls). Oracle: for each (value object, '
         'settings) every text in the history is identical (recursion-marker ids masked); a canonical deep snapshot of '
         'every input (types, contents, order, default_factory, maxlen, comment wrappers, sharing pattern) taken before '
@@ -56,6 +57,10 @@ COLD_CORPUS = [
     (['str', 'a long string with words that has to be split over several lines at this width'], {'width': 30}),
     (['bytes', (b'bytes \x00 with \xff escapes ' * 4).hex()], {'width': 30}),
     (['graph', {'kinds': ['list', 'dict'], 'edges': [[1, 1], [0]], 'root': 0, 'root2': 1}], {}),
+    (['pred', 1, 7], {}),
+    (['list', [['pred', 0, 8]]], {}),
+    (['dict', [[['str', 'k'], ['cmt', 'the quick brown fox jumps over the lazy dog again and again until the line has to wrap', ['list', [['int', 1], ['int', 2]]]]]]], {'width': 40}),
+    (['tcmt', 'first line\n   \nlast line', ['list', [['int', 1]]]], {}),
 ]
 
 
@@ -140,7 +145,19 @@ def strategy(tier):
         st.lists(ch, min_size=1, max_size=2).map(lambda xs: ['tuple', xs])), max_leaves=6)
     weird_st = st.tuples(st.sampled_from([['opaque', 1], ['str', 'x'], ['float', 'nan'], ['list', []]]), st.integers(0, 8)).map(
         lambda p: ['std', 'struct_time_x', [p[0] if j == p[1] else ['int', j + 1] for j in range(9)]])
+    pred_item = st.tuples(st.integers(0, 1), st.integers(0, 3)).map(lambda p: ['pred', p[0], p[1]])
+    ws_comment = st.sampled_from(['a\n  \nb', '   ', 'x\n \n', 'one two\n\t\nthree'])
+    long_comment = st.just('the quick brown fox jumps over the lazy dog again and again until the line has to wrap around')
+    small_list = st.lists(S['r_int'], min_size=1, max_size=3).map(lambda xs: ['list', xs])
+    comment_items = st.one_of(
+        st.tuples(ws_comment, small_list).map(lambda p: ['tcmt', p[0], p[1]]),
+        st.tuples(ws_comment, S['r_int']).map(lambda p: ['dict', [[['cmt', p[0], p[1]], ['int', 0]]]]),
+        st.tuples(long_comment, small_list).map(lambda p: ['dict', [[['str', 'k'], ['cmt', p[0], p[1]]]]]),
+        st.tuples(long_comment, small_list).map(lambda p: ['list', [['cmt', p[0], p[1]], ['int', 1]]]),
+    )
     item = st.one_of(
+        st.one_of(pred_item, pred_item.map(lambda r: ['list', [r]])).map(lambda r: [r, {}]),
+        st.tuples(comment_items, st.sampled_from([{'width': 30}, {'width': 40}, {}])).map(list),
         st.tuples(flaky_tree, cfg).map(list),
         st.tuples(weird_st, st.just({})).map(list),
         st.tuples(gens.any_value(S, comments=True), cfg).map(list),
@@ -271,6 +288,10 @@ INTERFERERS = [
     ('fail', ['list', [['dict', [[['str', 'k'], ['list', [['flaky', 1]]]]]]]], {}),
     ('ok', ['list', [['std', 'path', 'PurePosixPath', '/a/b'], ['std', 'uuid', '0' * 32], ['std', 'partial', 'partial', 'len', [], []]]], {}),
     ('ok', ['dict', [[['str', 'k'], ['cmt', 'c', ['str', 'lorem ipsum dolor sit amet consectetur adipiscing elit sed do']]]]], {'width': 20}),
+    ('ok', ['pred', 0, 1], {}),
+    ('ok', ['list', [['pred', 1, 2]]], {}),
+    ('ok', ['tcmt', 'a\n  \nb', ['list', [['int', 1]]]], {}),
+    ('ok', ['dict', [[['cmt', 'k\n \n', ['int', 1]], ['int', 2]]]], {}),
 ]
 
 
@@ -290,7 +311,7 @@ def custom_phase(tier, seed, st, procs):
     jobs = []
     for i, (r, cfg) in enumerate(corpus):
         jobs.append((i, None, [['ok', r, cfg]]))
-    targets = range(len(corpus)) if tier == 'thorough' else [0, 1, 5, 12, 16, 17, 23]
+    targets = range(len(corpus)) if tier == 'thorough' else [0, 1, 5, 12, 16, 17, 23, 24, 25, 26, 27]
     for k, (mode, ir, icfg) in enumerate(INTERFERERS):
         for i in targets:
             r, cfg = corpus[i]
